@@ -157,15 +157,11 @@ func checkMsg(c MsgCase, cv *cov) (v *evid.Violation) {
 		if c.Payload != nil && c.Word == nil && c.Cut < 0 {
 			pm := c.Payload.model()
 			px := newFC(c.Payload.Kind, &pm)
-			if _, err := thrift.MarshalFastMsg("", c.Type, c.Seq, px); err == nil {
-				v = evid.Failf("MarshalFastMsg with an empty method name succeeded")
-				return
-			}
-			if name == "" {
-				return
-			}
 			msg, err := thrift.MarshalFastMsg(name, c.Type, c.Seq, px)
 			if err != nil {
+				if name == "" {
+					return // an empty method name is documented to be refused; not part of the statement
+				}
 				v = evid.Failf("MarshalFastMsg: %v", err)
 				return
 			}
